@@ -42,6 +42,12 @@ pub struct RunReport {
     pub focus: Option<u64>,
 }
 
+static VERIF_SEED: AtomicU64 = AtomicU64::new(0);
+/// the VERIF_SEED of the batch (or of the replay file) this process is executing
+pub fn verif_seed() -> u64 {
+    VERIF_SEED.load(Ordering::Relaxed)
+}
+
 pub fn run_seed_for(seed: u64, property: &str, index: u64) -> u64 {
     derive(seed, &[b"run", property.as_bytes(), &index.to_le_bytes()])
 }
@@ -251,6 +257,7 @@ pub fn replay(checks: &[&Check], path: &str) -> i32 {
     let Some(check) = checks.iter().find(|c| c.property == prop) else { eprintln!("unknown property {prop}"); return 2 };
     let thorough = j["tier"].as_str() == Some("thorough");
     let run_seed = j["run_seed"].as_u64().unwrap_or(0);
+    VERIF_SEED.store(j["verif_seed"].as_u64().unwrap_or(0), Ordering::Relaxed);
     let index = j["run_index"].as_u64().unwrap_or(0);
     let key = j["violation_key"].as_str().unwrap_or("").to_string();
     let vals: Vec<u64> = j["choices"].as_array().map(|a| a.iter().map(|c| c[2].as_u64().unwrap_or(0)).collect()).unwrap_or_default();
@@ -475,6 +482,7 @@ pub fn selftest_determinism(checks: &[&Check], seed: u64, runs_per_check: u64) -
 pub fn cli(checks: &[&Check]) -> i32 {
     let args: Vec<String> = std::env::args().skip(1).collect();
     let seed = env_u64("VERIF_SEED", 20261003);
+    VERIF_SEED.store(seed, Ordering::Relaxed);
     match args.first().map(|s| s.as_str()) {
         Some("check") => {
             let id = args.get(1).cloned().unwrap_or_default();
